@@ -32,6 +32,8 @@ func (e DExpr) jvalS(legacy bool) S {
 		return L(Atom("s"), Str("${"+e.Str+"}"))
 	case "tmpl":
 		return L(Atom("s"), Str("pre-${"+e.Str+"}-post"))
+	case "tmpl2":
+		return L(Atom("s"), Str("${self.zone}-${"+e.Str+"}"))
 	case "list":
 		xs := List{Atom("a")}
 		for _, i := range e.Items {
